@@ -75,6 +75,11 @@ class Walker(Monitor):
         self.confirm = None
         self.cf = {}
         self.pending_bound = {}
+        self.pending_rate = {}
+        self.confirm_u = None
+        self.q_seen = 0.0
+        self.out_handler = None
+        self.draws_now = []
 
     def on_walker_built(self, walker, args, kwargs, info):
         self.walkers[id(walker)] = (walker, list(info))
@@ -175,6 +180,7 @@ class Walker(Monitor):
         self.current = handler
         self.sampled = None
         self.exp_draw = None
+        self.draws_now = []
         self.in_records = args[0] if args else None
 
     def on_walker_sample(self, walker, name, args, kwargs, result, exc):
@@ -189,8 +195,10 @@ class Walker(Monitor):
                 and site is not None and site.endswith(("send_out_state",
                                                          "_calculate_out_state_of_two_leaf_unit_bounding_potential")):
             self.confirm = args[1]
+            self.confirm_u = u
         if self.current is None:
             return
+        self.draws_now.append((kind, args))
         if kind == "expovariate" and site is not None and site.endswith("send_event_time"):
             self.exp_draw = (args[0], value)
 
@@ -199,12 +207,20 @@ class Walker(Monitor):
         if handler is not self.current:
             return
         self.current = None
-        if self.sampled is None or self.exp_draw is None:
-            ctx.violation("C18", "cell_veto_candidate_without_sample_or_budget", {"sampled": self.sampled is not None,
-                                                                                  "budget": self.exp_draw is not None})
-        walker, offset = self.sampled
         time, extra = result
         target = extra[0]
+        if self.exp_draw is None:
+            ctx.probes["c18_candidate_without_observed_budget"] += 1
+            return
+        if self.sampled is None:
+            # the handler did not sample through Walker.sample_cell: the walker is recognised by the two draws of the
+            # alias method (table row out of n, uniform up to the mean rate), the offset is read off the target cell
+            self.sampled = self._sample_from_draws(handler, args, target)
+            if self.sampled is None:
+                ctx.probes["c18_candidate_without_observed_sample"] += 1
+                return
+            ctx.probes["c18_sample_recognised_by_its_draws"] += 1
+        walker, offset = self.sampled
         tagger = ctx.handler_tagger.get(handler)
         state = getattr(tagger, "internal_state", None)
         branch = args[0][0]
@@ -253,13 +269,52 @@ class Walker(Monitor):
                               {"implied_charge_factor": factor, "earlier": known, "budget": budget, "dt": dt,
                                "total_rate": walker.total_rate})
             self.pending_bound[handler] = rate * factor
+            # the rate (per unit of time) at which candidates for this very cell are proposed: the thinning is exact
+            # if and only if the confirmation probability is true rate (per unit of time) / this rate
+            self.pending_rate[handler] = (rate * factor * speed, tuple(unit.identifier))
         ctx.probes["c18_proposals_checked"] += 1
         if any(a != e for a, e in zip([a + o for a, o in zip(request_cell.identifier, offset.identifier)], expected)):
             ctx.probes["c18_target_through_periodic_boundary"] += 1
 
+    def _sample_from_draws(self, handler, args, target):
+        ctx = self.ctx
+        rows = [a[0] for k, a in self.draws_now if k == "choice"]
+        means = [a[1] for k, a in self.draws_now if k == "uniform"]
+        tagger = ctx.handler_tagger.get(handler)
+        state = getattr(tagger, "internal_state", None)
+        if len(rows) != 1 or len(means) != 1 or state is None:
+            return None
+        total = rows[0] * means[0]
+        leaves = [c for c in walk_cnodes([args[0][0]]) if not c.children and c.value.velocity is not None]
+        if len(leaves) != 1:
+            return None
+        node = leaves[0]
+        while len(node.value.identifier) > state.cell_level:
+            node = node.parent
+        rec = ctx.G.get(tuple(node.value.identifier))
+        cells = state.cells
+        request_cell = cells.position_to_cell(list(rec[0]))
+        ids = [c.identifier for c in cells.yield_cells()]
+        per_side = [max(i[d] for i in ids) + 1 for d in range(len(ids[0]))]
+        offset_id = tuple((t - a) % n for t, a, n in zip(target.identifier, request_cell.identifier, per_side))
+        for walker, items in self.walkers.values():
+            if len(items) and abs(walker.total_rate - total) <= 1e-9 * total:
+                for item, rate in items:
+                    if tuple(item.identifier) == offset_id:
+                        return (walker, item)
+        return None
+
     def on_send_out_state_begin(self, handler, args):
         self.out_handler = handler if self.ctx.kind(handler) == "cell_veto" else None
         self.confirm = None
+        self.confirm_u = None
+        self.q_seen = 0.0
+
+    def on_potential_call(self, potential, name, args, kwargs, result, exc):
+        # the true event rate as the handler computes it: the derivatives it asks for before the confirmation draw
+        if _BUSY[0] or self.out_handler is None or self.confirm is not None or name != "derivative" or exc is not None:
+            return
+        self.q_seen += result
 
     def on_send_out_state_end(self, handler, args, result):
         ctx = self.ctx
@@ -267,11 +322,29 @@ class Walker(Monitor):
             return
         self.out_handler = None
         expected = self.pending_bound.pop(handler, None)
+        proposal = self.pending_rate.pop(handler, None)
+        if proposal is not None and result is not None and args and args[0] is not None:
+            # decision-based: whatever units the handler compares in, the event must be confirmed exactly when the
+            # unit variate of its confirmation draw lies below true rate / rate of the proposals for the sampled cell
+            rate_of_cell, active_identifier = proposal
+            after = [c.value for c in walk_cnodes(result) if tuple(c.value.identifier) == active_identifier]
+            if len(after) == 1 and rate_of_cell > 0.0:
+                accepted = after[0].velocity is None
+                probability = max(0.0, self.q_seen) / rate_of_cell
+                u = self.confirm_u
+                if u is None:
+                    if accepted:
+                        ctx.violation("C18", "cell_veto_event_confirmed_without_a_draw", {})
+                elif abs(u - probability) > 1e-9:
+                    if accepted != (u < probability):
+                        ctx.violation("C18", "confirmation_probability_is_not_true_rate_over_rate_of_the_sampled_cell",
+                                      {"unit_variate_of_the_confirmation_draw": u, "true_rate_per_time": self.q_seen,
+                                       "proposal_rate_of_the_sampled_cell_per_time": rate_of_cell,
+                                       "expected_probability": probability, "confirmed": accepted,
+                                       "upper_limit_of_draw": self.confirm})
+                    ctx.probes["c18_confirmation_decisions_judged"] += 1
         if self.confirm is None or expected is None:
             return
-        if abs(self.confirm - expected) > 1e-6 * expected:
-            ctx.violation("C18", "confirmation_not_against_the_bound_of_the_sampled_offset",
-                          {"upper_limit_of_draw": self.confirm, "bound_of_sampled_cell_times_charge_factor": expected})
         ctx.probes["c18_confirmations_checked"] += 1
 
     def at_end(self, status):
